@@ -92,9 +92,10 @@ def C10(ctx):
     mc(ctx, "MC_UriCanon", law_cfg("BrokenQueryLaws", "query_lists", 2), expect_violation="BrokenQueryLaws",
        label="neg-rendered-sort")
     fn_campaign(ctx,
-                [("query_bytes", 0), ("query_escapes", 0), ("query_ampamp", 2), ("query_lists", 2 if q else 3)],
+                [("query_bytes", 0), ("query_escapes", 0), ("query_many", 0), ("query_ampamp", 2), ("query_lists", 2 if q else 3)],
                 [("query", 4000 if q else 200000)])
     fresh_process_determinism(ctx, "query_lists", 2, 4 if q else 16, "fresh-processes")
+    fresh_process_determinism(ctx, "query_many", 0, 4 if q else 16, "fresh-processes-many")
     return dict(
         rule="E: TLC enumerates every parameter list of <= %d components over 80 components (10 names incl. prefix-"
              "related ones x 7 values, with and without '='), all orders being distinct inputs, '&&' variants, every "
@@ -124,7 +125,7 @@ def C06(ctx):
 
 def C16(ctx):
     q = ctx.quick
-    gens = [("ts_field", 0), ("ts_year", 0), ("ts_calendar", 0), ("ts_frac", 0), ("ts_seps", 0), ("ts_affix", 0)]
+    gens = [("ts_field", 0), ("ts_year", 0), ("ts_calendar", 0), ("ts_frac", 0), ("ts_seps", 0), ("ts_affix", 0), ("ts_subst", 0)]
     if not q:
         gens.append(("ts_offset", 0))
     fn_campaign(ctx, gens, [("ts", 6000 if q else 200000)])
@@ -200,7 +201,7 @@ def C13(ctx):
     pipeline_mc(ctx, q)
     mc(ctx, "SigV4", "MC_SigV4_bug_scope_before_window.cfg", expect_violation="Precedence", label="neg-scope-before-window")
     fn_campaign(ctx, [("errtable", 0)], [])
-    req_campaign(ctx, [("defects", 2 if q else 14), ("scripts", 1 if q else 0)])
+    req_campaign(ctx, [("defects", 2 if q else 14), ("scripts", 1 if q else 0), ("degenerate", 0), ("akid", 0)])
     return dict(
         rule="MC: SigV4.tla Precedence/Taxonomy over every subset of simultaneous defects (%s) x 4 carriers x provider "
              "scripts; E: one wire request per (defect subset with <= %d defects, carrier, 3 witnesses per rule), rendered "
@@ -217,7 +218,7 @@ def C14(ctx):
     for bug, inv in (("call_before_rules", "ProviderLast"), ("retry_on_error", "ProviderOnce"),
                      ("accept_on_provider_error", "OkNeedsAnswer"), ("skip_ready", "CallOnlyWhenReady")):
         mc(ctx, "SigV4", "MC_SigV4_bug_%s.cfg" % bug, expect_violation=inv, label="neg-" + bug)
-    req_campaign(ctx, [("scripts", 0), ("defects", 1), ("forever", 0)])
+    req_campaign(ctx, [("scripts", 0), ("defects", 1), ("forever", 0), ("zerokey", 0), ("ioerr", 0), ("akid", 0)])
     return dict(
         rule="MC: provider process with delayed readiness / delayed answer / SignatureError / foreign error scripts, "
              "ProviderOnce, ProviderLast, CallOnlyWhenReady, CallsExact, OkNeedsAnswer, HistoryFree over histories of "
@@ -230,7 +231,8 @@ def C14(ctx):
 def C01(ctx):
     q = ctx.quick
     pipeline_mc(ctx, q)
-    req_campaign(ctx, [("sigmut", 0), ("mut_struct", 0), ("mut_key", 0), ("mut_body", 0), ("mut_uri", 0), ("mut_hdr", 0)]
+    req_campaign(ctx, [("sigmut", 0), ("mut_struct", 0), ("mut_key", 0), ("mut_body", 0), ("mut_uri", 0), ("mut_hdr", 0),
+                       ("s3hash", 0), ("zerokey", 0)]
                  + ([] if q else [("base", 1)]))
     logical_campaign(ctx, 400 if q else 20000)
     return dict(
@@ -245,7 +247,8 @@ def C01(ctx):
 def C02(ctx):
     q = ctx.quick
     pipeline_mc(ctx, q)
-    req_campaign(ctx, [("spell", 0), ("base", 0 if q else 1), ("midnight", 0), ("window", 0 if q else 1)])
+    req_campaign(ctx, [("spell", 0), ("base", 0 if q else 1), ("midnight", 0), ("window", 0 if q else 1), ("fold", 1),
+                       ("s3hash", 0)])
     logical_campaign(ctx, 400 if q else 20000)
     return dict(
         rule="MC: Complete on SigV4.tla; the spelling law (an admissible respelling leaves canonical request, string-to-sign "
@@ -261,7 +264,7 @@ def C02(ctx):
 def C03(ctx):
     q = ctx.quick
     pipeline_mc(ctx, q)
-    req_campaign(ctx, [("scope", 0), ("midnight", 0)])
+    req_campaign(ctx, [("scope", 0), ("midnight", 0), ("akid", 0)])
     return dict(
         rule="E: 31 credential scopes (arities 0..7 parts, region/service prefix, suffix, case variant, empty, extra char, "
              "non-ASCII, swapped, terminator and date near-misses) x 3 server configurations (incl. region a prefix of the "
@@ -274,6 +277,7 @@ def C03(ctx):
 def C04(ctx):
     q = ctx.quick
     pipeline_mc(ctx, q)
+    fn_campaign(ctx, [("ts_field", 0), ("ts_seps", 0)], [])     # the textual forms themselves (hour 24, offsets, ...)
     req_campaign(ctx, [("window", 0 if q else 1)])
     return dict(
         rule="E: request instants at every whole-second offset %s from the server time plus 1 ns and 0.5 s either side of "
@@ -318,7 +322,7 @@ def C11(ctx):
 def C12(ctx):
     q = ctx.quick
     pipeline_mc(ctx, q)
-    req_campaign(ctx, [("fold", 0), ("fold", 1)] if q else [("fold", 1), ("fold", 2)])
+    req_campaign(ctx, ([("fold", 0), ("fold", 1)] if q else [("fold", 1), ("fold", 2)]) + [("s3hash", 0)])
     return dict(
         rule="E: URL parameter lists x body parameter lists over names {a, b} x values {1, 2, empty} (incl. the same name in "
              "both) x 13 content types (exact, charset utf-8/UTF8/unicode-1-1-utf-8/foobar/latin1/empty, extra params, "
@@ -493,6 +497,25 @@ def C18(ctx):
     tr = hrun(ctx, corpus, "reference")
     validate_req(ctx, tr, "reference", corpus)             # "same" also means "right"
     obs = det_events_from_trace(tr, "ref")
+    # several validations in flight on ONE thread: requests whose provider is not immediately ready / answers late
+    # are validated two at a time with their futures polled alternately
+    scases, sn = tlc_gen(ctx, "Gen_Req", {"Family": "scripts", "Bound": 0}, "scripts-interleave")
+    slines = [x for x in open(scases).read().split("\n") if x and ('"readyIn":0' not in x or '"pendIn":0' not in x)]
+    if q:
+        slines = slines[:: max(1, len(slines) // 300)]
+    with open(scases, "w") as w:
+        w.write("\n".join(slines) + "\n")
+    str_ = hrun(ctx, scases, "reference-pending")
+    validate_req(ctx, str_, "reference-pending", scases)
+    obs += det_events_from_trace(str_, "ref")
+    iout = os.path.join(os.path.dirname(scases), "interleaved.ndjson")
+    rc, o = sh([CONFORM, "interleave", scases, iout], timeout=1800, env={"RUST_BACKTRACE": "0"})
+    if rc != 0:
+        ctx.violation([{"run": "interleave"}], {"module": "Trace_Det", "abnormal_exit": rc, "tail": o[-400:]})
+    else:
+        for ln in open(iout):
+            obs.append(json.loads(ln))
+        log("  det interleaved futures on one thread: %s" % o.strip())
     d = os.path.dirname(corpus)
     runs = []
     plans = [(2, 3), (8, 3)] if q else [(2, 20), (4, 20), (8, 20), (16, 20)]
